@@ -227,6 +227,24 @@ def run(rep, tier, seed):
     fails = [f for f in fails if f[0] not in known_cids]
     if nf14:
         rep.known_finding(f'F14 class: {nf14} runs in this corpus contain such an application (the faithful model performs it identically)')
+    # F16: verdict failures of runs that contain an application explained by zeros written next to the head (see C03.f16_check)
+    fprogs = {f[1] for f in fails if f[0] not in diverging}
+    hits16 = C03.f16_check([a for a in allapps if a[1] in fprogs]) if fprogs else {}
+    progs16 = {}
+    for a in allapps:
+        if a[0] in hits16:
+            progs16.setdefault(a[1], (a, hits16[a[0]]))
+    n16 = 0
+    for f in list(fails):
+        if f[1] in progs16 and f[0] not in diverging:
+            n16 += 1
+            if n16 <= 3:
+                rep.known_finding(f'F16: {f[2]}; the verdict rests on a rule application that is not a run of the machine: '
+                                  + C03.f16_text(*progs16[f[1]]))
+            fails.remove(f)
+    if n16:
+        rep.known_finding(f'F16 class: {n16} runs in this corpus have a wrong verdict resting on such an application (the faithful model performs it identically)')
+    stats['runs_with_F16_application'] = n16
     stats['runs_with_F14_application'] = nf14
     stats.update(bstats)
     # runs all of whose applications carry a certificate of the verified symbolic rule checker: for these the
